@@ -16,12 +16,12 @@ def extract_next_field(src, dlm, preserve_quotes_and_whitespaces, allow_external
     match_obj = rgx.match(src, cidx)
     if match_obj is not None:
         match_end = match_obj.span()[1]
-        if match_end == len(src) or src[match_end] == dlm:
+        if match_end == len(src) or src.startswith(dlm, match_end):
             if preserve_quotes_and_whitespaces:
                 result.append(match_obj.group(0))
             else:
                 result.append(match_obj.group(1).replace('""', '"'))
-            return (match_end + 1, False)
+            return (match_end + len(dlm), False)
         warning = True
     uidx = src.find(dlm, cidx)
     if uidx == -1:
@@ -29,7 +29,7 @@ def extract_next_field(src, dlm, preserve_quotes_and_whitespaces, allow_external
     field = src[cidx:uidx]
     warning = warning or field.find('"') != -1
     result.append(field)
-    return (uidx + 1, warning)
+    return (uidx + len(dlm), warning)
 
 
 
@@ -47,7 +47,7 @@ def split_quoted_str(src, dlm, preserve_quotes_and_whitespaces=False):
         cidx = extraction_report[0]
         warning = warning or extraction_report[1]
 
-    if src[-1] == dlm:
+    if cidx == len(src): # The last field was terminated by a delimiter at the very end of the line
         result.append('')
     return (result, warning)
 
